@@ -35,8 +35,31 @@ class Ctx:
         c.prog = getattr(self, "prog", None)
         return c
 
-    def _assumed(self, t):
+    def assume_variant(self, pred, name):
+        """world assumption: every enum value accepted by `pred` is of variant `name`."""
+        c = Ctx(self.body, self.removed, self.T.params, self.T.captures, self.assumptions + ((pred, ("variant", name)),))
+        c.prog = getattr(self, "prog", None)
+        return c
+
+    def _assumed_variant(self, subj):
         for pred, value in self.assumptions:
+            if isinstance(value, tuple) and value[0] == "variant" and pred(subj):
+                return value[1]
+        return None
+
+    def _assumed(self, t):
+        if self.assumptions and getattr(self, "prog", None) is not None and t[0] == "call":
+            # a boolean computed by a small local function: evaluate it under the same assumptions
+            cb = _callee_body(self.prog, t)
+            if cb is not None and cb.key != self.body.key and cb.kind == "fn" and len(cb.blocks) < 120 and cb.j.get("ret_ty") == "bool":
+                cc = Ctx(cb, params={i + 1: a for i, a in enumerate(t[2])}, assumptions=self.assumptions)
+                cc.prog = self.prog
+                rt = cc.settle().T.return_term()
+                if rt[0] == "const" and rt[1] == "bool":
+                    return rt
+        for pred, value in self.assumptions:
+            if isinstance(value, tuple):
+                continue
             neg = False
             x = t
             while x[0] == "un" and x[1] == "Not":
@@ -64,6 +87,14 @@ class Ctx:
                                     rem.add((bi, tg))
             if atom[0] == "variant":
                 subj = atom[1]
+                av = self._assumed_variant(subj)
+                if av is not None and av in atom[2]:
+                    good = atom[2][av]
+                    for n, tgs in atom[2].items():
+                        if n != av:
+                            for tg in tgs:
+                                if tg not in good:
+                                    rem.add((bi, tg))
                 alts = subj[1] if subj[0] == "phi" else (subj,)
                 if all(a[0] == "agg" for a in alts):
                     vs = set(a[2] for a in alts)
